@@ -238,7 +238,7 @@ Definition g_delays_ge2 (c : circuit) : bool :=
    integrator node: that is what the specification and the repaired mechanism (fixes/fix_D101.diff: the operator's output is left
    alone) compute.  The defective read is NOT modelled; this guard delimits the class.  `taps` = positions of the tap edges in cedges.
    fixed_tap: false = the code as it is. *)
-Definition fixed_tap : bool := false.
+Definition fixed_tap : bool := true.
 Definition dedge : edge := mkEdge 0 0 0%Qc NoKey.
 Definition g_no_tap_on_buffered (taps : list nat) (c : circuit) : bool :=
   fixed_tap || forallb (fun i => negb (gadd c (skey c (nth i (cedges c) dedge)))) taps.
@@ -248,7 +248,7 @@ Definition g_no_tap_on_buffered (taps : list nat) (c : circuit) : bool :=
    `delay` present as None on one undelayed edge, absent on another) leaves the lists out of step: KeyError / shape mismatch, or
    silently misassigned values.  Not modelled; the guard delimits the class; repaired by fixes/fix_D103.diff (missing entries
    are padded with None).  fixed_group_keys: false = the code as it is. *)
-Definition fixed_group_keys : bool := false.
+Definition fixed_group_keys : bool := true.
 Definition has_delay_key (e : edge) : bool := match ed e with NoKey => false | _ => true end.
 Definition g_uniform_keys (c : circuit) : bool :=
   fixed_group_keys || negb (cvec c) ||
